@@ -93,8 +93,8 @@ def campaign(tier, seed):
             raise ToolError("harness failed: " + out[-2000:])
         hstat = json.loads(out.strip().splitlines()[-1])
         tv_out = st.path("tv.out")
-        tv = run_tlc("LowerTrace", os.path.join(SPEC, "LowerTrace.cfg"), tv_out, workers=12,
-                     env={"TRACE": trace}, timeout=6000)
+        tv = run_tlc_trace("LowerTrace", os.path.join(SPEC, "LowerTrace.cfg"), trace, tv_out, workers=3,
+                           chunk=12000, par=5, timeout=6000)
         if not tv["ok"]:
             raise ToolError("LowerTrace did not complete: %s" % tv["error"])
         seen, recs = set(), []
